@@ -508,6 +508,7 @@ Fixpoint dec_ty (fuel : nat) (t : gty) (id : N) : dec tval :=
           match t with
           | GSl GU8 => Ret (XSlice (map (fun b => XInt (Z.of_N b)) bs))
           | GSl GI8 => Ret (XSlice (map (fun b => XInt (sx8 b)) bs))
+          | GSl GBool => Ret (XSlice (map (fun b => XBool (negb (b =? 0))) bs))   (* fix 862b2b8 *)
           | _ => Fail eType
           end)
       else if id =? idIntArray then
@@ -515,6 +516,7 @@ Fixpoint dec_ty (fuel : nat) (t : gty) (id : N) : dec tval :=
         if (n <? 0)%Z then Fail eNeg
         else match t with
              | GSl GInt | GSl GI32 => l <- rep f (Z.to_N n) rd_i32 [] ;; Ret (XSlice (map XInt l))
+             | GSl GU32 => l <- rep f (Z.to_N n) rd_i32 [] ;; Ret (XSlice (map (fun v => XInt (Z.of_N (u32 v))) l))   (* fix 13da9e2 *)
              | _ => Fail eType
              end
       else if id =? idLongArray then
